@@ -258,6 +258,8 @@ func checks() map[string]CheckDef {
 				Labels: []string{"C17/same-hash-at-same-height", "C17/same-cumulative-work", "C17/stale-and-orphan-headers-left-out", "C17/batch-import-succeeds"}},
 			{Pkg: "database", Func: "HarnessRealBatches", Quick: [][]int64{{3, 1}, {3, 2}}, Thorough: [][]int64{{4, 1}, {4, 2}, {4, 3}},
 				Labels: []string{"C17/import-succeeds", "C17/same-hash-at-same-height", "C17/same-fields", "C17/same-cumulative-work", "C17/stale-and-orphan-headers-left-out"}},
+			{Pkg: "database", Func: "HarnessFileRoundTrip", Quick: [][]int64{{2}, {3}}, Thorough: [][]int64{{4}},
+				Labels: []string{"C17/export-succeeds", "C17/import-succeeds", "C17/same-hash-at-same-height", "C17/same-fields", "C17/same-cumulative-work", "C17/stale-and-orphan-headers-left-out"}},
 			{Pkg: "database", Func: "HarnessSecondStart", Quick: [][]int64{{1}, {2}}, Thorough: [][]int64{{3}},
 				Labels: []string{"C17/existing-headers-never-overwritten", "C17/start-on-inconsistent-leftover-is-refused"}},
 		},
